@@ -272,7 +272,18 @@ def bucket(x):
 
 class C10(Family):
     prop = "C10"
-    extra_modules = ["CtrlVerif.Props.C10Stable"]    # stability half (Lyapunov argument over C)
+    # source-text tie (DESIGN 2.5): Generated/MatEqnCheck.lean is rewritten from /repo's control/mateqn.py
+    # (_check_shape, _is_symmetric) on every run and proved equal to the model's checkShape / isSymD
+    extra_modules = ["CtrlVerif.Props.C10Stable",    # stability half (Lyapunov argument over C)
+                     "CtrlVerif.Props.C10Gen"]
+
+    def pre_build(self):
+        import os
+        from core import py2lean_select, leanproj
+        problems, self.gen_info = py2lean_select.regenerate(
+            os.environ.get("VERIF_REPO") or "/repo", leanproj.LEAN, "C10")
+        return problems
+
     externals = ["scipy.linalg.solve_continuous_lyapunov / solve_discrete_lyapunov / solve_sylvester / "
                  "solve_continuous_are / solve_discrete_are (contract structures of Props/C10.lean: the "
                  "returned matrix satisfies SciPy's documented equation, for the Riccati solvers it is "
@@ -865,4 +876,5 @@ class C10(Family):
         return out
 
 
-FAMILY = C10
+from families import select_streams as _sel      # direct stream for _check_shape
+FAMILY = _sel.extend(C10, _sel.CheckShapeStream())
